@@ -134,7 +134,7 @@ def finish(ctx, level="model_checking", extra_cov=None):
 
 # ------------------------------------------------------------------------------------------------
 # worker pool: subprocesses (so PYTHONHASHSEED can vary and pyscript's class-level state is isolated)
-def run_workers(module, func, jobs, scratch, nproc=16, hashseeds=(0, 1, 2, 3), timeout=3000, py=PY):
+def run_workers(module, func, jobs, scratch, nproc=16, hashseeds=(0, 1, 2, 3), timeout=7200, py=PY):
     """jobs: list of JSON-able job descriptions.  Each job is handled by `module.func(job)` in a
     subprocess; jobs are distributed round-robin over nproc processes.  Returns list of results in
     job order."""
